@@ -969,7 +969,11 @@ func (r *c08run) afterRestart() {
 			r.fail(step, "Restart", classify(d), "changed_by_restart", d)
 			return
 		}
-		if txt, kind := r.specCheck(behav.ToMap(r.last["st"])); txt != "" {
+		want := r.last["st"]
+		if r.pos < len(r.c.Beh) {
+			want = r.c.Beh[r.pos]["st"] // the projection recorded for the Restart step itself
+		}
+		if txt, kind := r.specCheck(behav.ToMap(want)); txt != "" {
 			r.fail(step, "Restart", kind, "wrong_state_after_restart", txt)
 		}
 	})
@@ -1033,6 +1037,35 @@ func failC08(res *behav.Result, c *C08Case, mm *mismatch) {
 	})
 }
 
+// corruptC08 flips one expected value of the projection of the behaviour's last record.
+func corruptC08(b behav.Behaviour) {
+	st := behav.ToMap(b[len(b)-1]["st"])
+	if fcfgOf(st["fcfg"]).Type == "int" {
+		vals := behav.ToList(st["vals"])
+		if len(vals) > 0 {
+			st["vals"] = vals[1:]
+		} else {
+			st["vals"] = []interface{}{[]interface{}{float64(0), float64(valsOf[fcfgOf(st["fcfg"]).Bounds][0])}}
+		}
+		return
+	}
+	rows := behav.ToList(st["rows"])
+	r0 := behav.ToInts(rows[0])
+	var nr []interface{}
+	found := false
+	for _, c := range r0 {
+		if c == 0 {
+			found = true
+			continue
+		}
+		nr = append(nr, float64(c))
+	}
+	if !found {
+		nr = append([]interface{}{float64(0)}, nr...)
+	}
+	rows[0] = nr
+}
+
 func TestC08(t *testing.T) {
 	res := behav.NewResult()
 	defer func() {
@@ -1054,6 +1087,14 @@ func TestC08(t *testing.T) {
 	}
 	behs := behav.LoadEnv()
 	seed := behav.Seed()
+	if behav.EnvInt("VERIF_CORRUPT", 0) == 1 { // binding self-test: every 5th behaviour must fail
+		for i := range behs {
+			if i%5 == 2 {
+				corruptC08(behs[i])
+				res.Cover("c08:selftest_corrupted")
+			}
+		}
+	}
 	per := behav.EnvInt("VERIF_BATCH", 24)
 	var batches [][]*C08Case
 	for i, b := range behs {
